@@ -67,10 +67,40 @@ def run(check: Check) -> None:
     )
     check.info["rule"] = "case = (formula, history); history = sequence of <=3 operations from 8"
     check.bounds.update({"history_length": "<=3", "operations": cc.OPS, "formulas": cc.FORMULAS})
-    check.out_of_scope += ["PYTHONHASHSEED dependence (process-level constant; running under several seeds is enumeration of processes)", "histories longer than 3"]
+    check.out_of_scope += ["PYTHONHASHSEED dependence for ALL seeds (process-level constant; a labelled ground companion runs a native battery under 3-5 seeds)", "histories longer than 3"]
     hist = [h for r in (1, 2) for h in itertools.product(cc.OPS, repeat=r)]
     h3 = list(itertools.product(cc.OPS, repeat=3))
     rng.shuffle(h3)
     hist += h3 if thorough else h3[:60]
     cases = [(f, h) for f in cc.FORMULAS for h in hist]
     run_cases(check, cases, _case)
+    _hash_seed_companion(check)
+
+
+def _hash_seed_companion(check: Check) -> None:
+    """Labelled ground companion (NOT solver-decided): a native battery under several PYTHONHASHSEED values must give bit-identical digests."""
+    import os
+    import subprocess
+
+    seeds = ["0", "1", "2", "12345", "987654321"] if check.tier == "thorough" else ["0", "1", "12345"]
+    outs = {}
+    for sd in seeds:
+        env = {**os.environ, "PYTHONHASHSEED": sd}
+        p = subprocess.run(["/venv/bin/python", "-m", "harness.c18_hashseed"], cwd="/verif", env=env, capture_output=True, text=True, timeout=600)
+        if p.returncode != 0:
+            check.harness_error(f"hash-seed battery failed under PYTHONHASHSEED={sd}: {p.stderr[-400:]}")
+            return
+        outs[sd] = p.stdout.strip().splitlines()
+    base = outs[seeds[0]]
+    bad = None
+    for sd in seeds[1:]:
+        for l0, l1 in zip(base, outs[sd]):
+            if l0 != l1:
+                bad = (sd, l0, l1)
+                break
+    check.obligation("hash_seed_companion/ground", "refuted" if bad else "ground", len(base) * (len(seeds) - 1))
+    check.info["hash_seed_companion"] = {"seeds": seeds, "cases": len(base), "note": "enumeration of processes; not solver-decided"}
+    if bad:
+        sd, l0, l1 = bad
+        case = l0.split(" ", 2)[2]
+        check.violation(f"hash-seed::{case}", f"results for {case!r} differ between PYTHONHASHSEED={seeds[0]} and {sd}", {"kind": "c18_hashseed", "seeds": [seeds[0], sd], "case": case})
